@@ -27,14 +27,14 @@ ASSUMPTIONS = ['the reference release (mpmath 1.3.0) at 2p+200 bits evaluates ex
                'tol_prec/6 (otherwise thousands of segments are needed: cost, not correctness)',
                'segment boundaries are read from the closure of the returned function (series_boundaries); if the name disappears the '
                'boundary queries are skipped and the run reports it']
-LEVEL_TEXT = ('exploration: ~7*10^2 (quick) / ~6*10^3 (thorough) ODE problems, each solved three times; ~10 points per problem compared bit '
+LEVEL_TEXT = ('exploration: ~7*10^2 (quick) / ~3.5*10^3 (thorough) ODE problems, each solved three times; ~10 points per problem compared bit '
               'for bit between evaluation histories and against the closed form')
 LEVEL_NOTE = 'ODEs and histories not generated are not covered; closed forms rely on the reference release at high precision'
 TECHNIQUE = 'history check on the live object (differential run against an in-order run) + closed-form reference monitor'
 SHARD_TIMEOUT = {'quick': 1800, 'thorough': 7200}
 
 NSHARDS = 16
-COUNTS = {'quick': 45, 'thorough': 400}
+COUNTS = {'quick': 45, 'thorough': 220}
 FAMS = ['exp', 'osc', 'ysq', 'ysqm', 'tri', 'cosx', 'xy', 'poly', 'rat']
 PRECS_Q = [30, 40, 53, 64, 80, 100, 113]
 PRECS_T = [30, 40, 53, 64, 80, 100, 113, 150, 200]
